@@ -478,9 +478,11 @@ impl DmlExecutor {
         let tid = self.ctx.tid();
 
         // Determine which columns were modified
+        // (assignments are keyed by value index, indexes by column index)
+        let num_keys = table_schema.num_keys();
         let modified_columns: Option<HashSet<usize>> = table_assignments
-            .clone()
-            .map(|c| c.keys().copied().collect());
+            .as_ref()
+            .map(|c| c.keys().map(|value_idx| value_idx + num_keys).collect());
 
         for index in indexes {
             let index_relation =
